@@ -34,7 +34,7 @@ C0, C1 = 20000, 4000
 
 
 def bounds(tier):
-    return {'tier': tier, 'layers': 'L0,L0c,L1(W2,K2),L2,families' if tier == 'quick'
+    return {'tier': tier, 'layers': 'L0,L0c,L2,families under EXPLICIT and AUTOMATIC TAGS; L1(W2,K2) under EXPLICIT, L1(W2,K1) under AUTOMATIC' if tier == 'quick'
             else 'L0,L0c,L1(W3,K2),L2,families; 5 environments',
             'value_deviation_k': 2, 'codecs': list(CODECS), 'numeric_enums': [False, True]}
 
